@@ -206,21 +206,49 @@ func (fr *Frame) sortHavoc(name string, fn *ssa.Function, args []Val, pos token.
 // Ghost lock: the mutex word is modelled as the memory location itself: 0 = free, 1 = held.
 func (fr *Frame) lockOp(args []Val, lock bool, pos token.Pos) (Val, bool) {
 	c := fr.ctx
-	p := args[0].Ptr
-	if p == nil {
+	// the mutex word lives in memory like any other field: 0 = free, non-zero = held
+	// (a freshly allocated mutex is zero = unlocked; frames and havoc apply to it as to every field)
+	mt := fnParamElem(args[0])
+	if mt == nil {
 		c.note("lock on unknown mutex ignored")
 		return Val{}, true
 	}
-	key := "lock:" + ptrKey(p)
-	cur := fr.cur.get(key, SBool)
+	cur := fr.load(args[0], mt, pos, true).T
+	held := Not(Eq(cur, zeroOfSort(cur.S)))
 	if lock {
-		c.oblige(fr, "lock-not-held", "Lock", Not(cur), pos)
-		fr.cur.set(key, TTrue)
+		c.oblige(fr, "lock-not-held", "Lock", Not(held), pos)
+		fr.store(args[0], mt, BVLit(1, cur.S.W), pos, false)
 	} else {
-		c.oblige(fr, "unlock-held", "Unlock", cur, pos)
-		fr.cur.set(key, TFalse)
+		c.oblige(fr, "unlock-held", "Unlock", held, pos)
+		fr.store(args[0], mt, zeroOfSort(cur.S), pos, false)
 	}
 	return Val{}, true
+}
+
+// fnParamElem: the pointee type of a pointer value that is an address of a field (mutexes).
+func fnParamElem(v Val) types.Type {
+	if v.Ptr == nil {
+		return nil
+	}
+	p := v.Ptr
+	t := p.Obj
+	for _, e := range p.Path {
+		switch u := t.Underlying().(type) {
+		case *types.Struct:
+			if e.Field < 0 {
+				return nil
+			}
+			t = u.Field(e.Field).Type()
+		case *types.Array:
+			t = u.Elem()
+		default:
+			return nil
+		}
+	}
+	if p.Root == RootElem && len(p.Path) == 0 {
+		return p.Elem
+	}
+	return t
 }
 
 func ptrKey(p *PtrVal) string {
